@@ -216,6 +216,8 @@ def run(ctx):
                       "%s looks only at %s%s of the %d %s slots: operands of opcodes with more than one destination get the wrong position/size "
                       "(the literal source of splitwb/splitql is created with size 0 -> 4)" % (hn, field, sorted(covered), N, field), line=h.line)
 
+    d6_token_cursor(db, rep)
+
     # ---- D4: the synthetic name of an inline literal identifies the literal ----------------------------
     # orc_program_append_str_n finds operands BY NAME.  The name made up for an inline literal must therefore be an
     # injective function of (operand size, literal text): it has to contain the literal token itself (%s of the same
@@ -272,3 +274,88 @@ def run(ctx):
                       "constants can be taken for the same one and merged" % (g.name, unparse(bad[0])[:40] if bad else "", bad[0].get("ty") if bad else ""), line=n.line)
     if n3 < 1:
         raise AnalysisBroken("no value comparison found in the constant-reuse code of orc_program_add_constant_str")
+
+
+def d6_token_cursor(db, rep):
+    """D6: a handler that walks the tokens of a line with `for (i = ..; i < n_tokens; i++)` must look at every token it
+    steps over.  Along every path through the loop body the total advance A of the index (explicit increments plus the
+    header's) and the set R of token positions read (tokens[i + k], relative to the index at body entry) must satisfy
+    {0 .. A-1} <= R.  A token stepped over without being read - an attribute value consumed twice, a type name skipped -
+    cannot influence the program that is built."""
+    from flow import linear
+    from loops import counted
+    tu = db.tu("orcparse")
+    n = 0
+    for f in tu.main_functions():
+        for loop in [x for x in f.walk() if x.k == "ForStmt"]:
+            cl = counted(loop)
+            if not cl or cl["dir"] != "asc":
+                continue
+            var = cl["var"]
+            body = loop.c[3]
+            subs = [s for s in (body.walk() if body is not None else []) if s.k == "ArraySubscriptExpr" and (access_path(s.c[0]) or "").endswith("tokens")]
+            rel = []
+            for s in subs:
+                l = linear(s.c[1])
+                if l and l[0] == var:
+                    rel.append(s)
+            if not rel:
+                continue
+            inc = loop.c[2]
+            inc_ids = {x.id for x in inc.walk()}
+            start = None
+            for b, blk in f.blocks.items():
+                if blk.cond is not None and blk.cond.id in {x.id for x in loop.c[1].walk()}:
+                    for i, s in enumerate(blk.succs):
+                        if s is not None and f.edge_kind(b, i) is True:
+                            start = s
+            if start is None:
+                raise AnalysisBroken("%s: loop body entry not found (line %s)" % (f.name, loop.line))
+            relids = {s.id: linear(s.c[1])[1] for s in rel}
+            results = []
+            seen = set()
+            stack = [(start, 0, frozenset())]
+            while stack:
+                b, delta, reads = stack.pop()
+                if (b, delta, reads) in seen or len(seen) > 20000:
+                    continue
+                seen.add((b, delta, reads))
+                blk = f.blocks[b]
+                done = False
+                for e in blk.el:
+                    if e.id in inc_ids:
+                        if e is strip_casts(inc) or e.id == inc.id:
+                            results.append((delta + 1, reads))
+                            done = True
+                            break
+                        continue
+                    if e.id in relids:
+                        reads = reads | {delta + relids[e.id]}
+                    elif e.k == "UnaryOperator" and e.op in ("++", "--") and access_path(e.c[0]) == var:
+                        delta += 1 if e.op == "++" else -1
+                    elif e.k == "CompoundAssignOperator" and e.op in ("+=", "-=") and access_path(e.c[0]) == var and strip_casts(e.c[1]).v is not None:
+                        delta += strip_casts(e.c[1]).v * (1 if e.op == "+=" else -1)
+                    elif e.k == "BinaryOperator" and e.op == "=" and access_path(e.c[0]) == var:
+                        l = linear(e.c[1])
+                        if l and l[0] == var:
+                            delta += l[1]
+                        else:
+                            done = True            # index recomputed: not a token walk of this shape
+                            break
+                if done or blk.noreturn:
+                    continue
+                for s in blk.succs:
+                    if s is not None:
+                        stack.append((s, delta, reads))
+            if not results:
+                continue
+            n += 1
+            rep.saw(f)
+            bad = [(a, sorted(r)) for a, r in results if not set(range(a)) <= r]
+            rep.check(not bad, "D6-TOKEN-CURSOR", where(f), "loop@%s" % var,
+                      "%d paths through the token loop: every token stepped over is read" % len(results),
+                      "%s: on a path through the loop over line->tokens[] the index advances by %d but only the tokens at relative positions %s are "
+                      "looked at: token %s is skipped unread, so an attribute following it (e.g. the type name after `align N`) is silently dropped" %
+                      ((f.name, bad[0][0], bad[0][1], sorted(set(range(bad[0][0])) - set(bad[0][1]))) if bad else ("", 0, [], [])), line=loop.line)
+    if n < 3:
+        raise AnalysisBroken("only %d token loops found in orcparse.c" % n)
